@@ -338,6 +338,18 @@ fn explore(ctx: &mut Ctx) {
         }
     }
     ctx.exhaustive_part(&format!("all strings of 0..={l} symbols over {{0,1,9,-,+,a,' ',٣}} x 12 integer types + bool"));
+    // NUL and other bytes below '0' / above '9' next to digits (sentinel-style scanners)
+    for core in ["", "0", "7", "12", "-1", "255", "true", "false"] {
+        for x in ["\0", "/", ":", "\u{7f}", "\u{80}", "０"] {
+            for s in [format!("{core}{x}"), format!("{x}{core}"), format!("{core}{x}{core}")] {
+                for ty in INT_TYPES {
+                    eval(ctx, ty, &s);
+                }
+                eval(ctx, Ty::Bool, &s);
+            }
+        }
+    }
+    ctx.exhaustive_part("8 cores x {NUL, '/', ':', DEL, U+0080, fullwidth zero} before / after / between, all types");
     // (c) neighbourhoods of MIN / MAX for every integer type
     for ty in INT_TYPES {
         let (mn, mx) = bounds(ty);
